@@ -127,20 +127,20 @@ func (p *Provider) Execute(ctx context.Context, name string, args []interface{})
 		return method.(interface{}).(missingMethod)(name, args)
 	}
 	n := len(args)
+	f := method.Func()
 	var in []reflect.Value
 	if method.PassContext() {
 		in = make([]reflect.Value, n+1)
 		in[0] = reflect.ValueOf(ctx)
 		for i := 0; i < n; i++ {
-			in[i+1] = reflect.ValueOf(args[i])
+			in[i+1] = core.ArgumentValue(f.Type(), i+1, args[i])
 		}
 	} else {
 		in = make([]reflect.Value, n)
 		for i := 0; i < n; i++ {
-			in[i] = reflect.ValueOf(args[i])
+			in[i] = core.ArgumentValue(f.Type(), i, args[i])
 		}
 	}
-	f := method.Func()
 	out := f.Call(in)
 	n = len(out)
 	if method.ReturnError() {
